@@ -19,9 +19,9 @@ def hook(event, args):
     if not ARMED[0]:
         return
     if event == "open" and isinstance(args[0], (str, bytes, os.PathLike)):
-        EVENTS.append(("open", os.fsdecode(args[0]), str(args[1])))
+        EVENTS.append(("open", os.path.abspath(os.fsdecode(args[0])), str(args[1])))     # absolute at the time of the call (the cwd may change later)
     elif event in ("os.mkdir", "os.rename", "os.remove"):
-        EVENTS.append((event, os.fsdecode(args[0]), ""))
+        EVENTS.append((event, os.path.abspath(os.fsdecode(args[0])), ""))
 
 
 sys.addaudithook(hook)
@@ -154,12 +154,22 @@ def audit_mode(cases):
                 d["relative_path_self"] = hostile
                 f.write_text(json.dumps(d))
             rehash(root)
+            if site == "relative_root":
+                shutil.copytree(tmp / "elsewhere", tmp / "decoy" / "data")
             EVENTS.clear()
             ARMED[0] = True
             stages = {}
             ds = None
+            cwd0 = os.getcwd()
             try:
-                ds = Dataset(root)
+                if site == "relative_root":
+                    # an untouched dataset opened through a RELATIVE root; the process then moves to a directory where the same relative
+                    # path names another dataset, and only afterwards uses the handle
+                    os.chdir(tmp)
+                    ds = Dataset(Path("data"))
+                    os.chdir(tmp / "decoy")
+                else:
+                    ds = Dataset(root)
                 stages["open"] = "ok"
             except Exception as ex:  # noqa: BLE001
                 stages["open"] = "raised:" + type(ex).__name__
@@ -175,12 +185,17 @@ def audit_mode(cases):
                     except Exception as ex:  # noqa: BLE001
                         stages[name] = "raised:" + type(ex).__name__
             ARMED[0] = False
+            os.chdir(cwd0)
             rr = str(root)
             outside = sorted({(e, os.path.realpath(p)) for (e, p, _m) in EVENTS
                               if os.path.realpath(p).startswith(str(tmp)) and not (os.path.realpath(p) + "/").startswith(rr + "/")})
             out.append({"stages": stages, "outside": [list(x) for x in outside][:6], "hostile": hostile})
         finally:
             ARMED[0] = False
+            try:
+                os.chdir(cwd0)
+            except Exception:  # noqa: BLE001
+                pass
             shutil.rmtree(tmp, ignore_errors=True)
     return out
 
